@@ -67,7 +67,7 @@ def gen_matrix(rng, n, kind, cplx):
         A[:, Z] = 0.
         info['Z'] = Z
     elif kind == 'identity':
-        A = numpy.eye(n, dtype=complex if cplx else float) * float(rng.choice([1., 1e-6, 1e6, -2.]))
+        A = numpy.eye(n, dtype=complex if cplx else float) * float(rng.choice([1., 1e-6, 1e6, -2., 1e-150]))
     else:
         raise ValueError(kind)
     return numpy.array(A, dtype=complex if cplx else float), info
